@@ -153,7 +153,11 @@ where
                 // Same application of constraining domain is done for the other two variables.
                 //
                 // The constraint is not dropped until all variables converge into numbers.
-                Ok(state
+                // The constraint goes back into the store before any domain is narrowed:
+                // narrowing can bind a variable, and the constraints are then re-run with
+                // the new binding. Re-added afterwards, this constraint missed that run.
+                state
+                    .with_constraint(self.clone())
                     .process_domain(
                         &wwalk,
                         Rc::new(FiniteDomain::from(
@@ -171,8 +175,7 @@ where
                         Rc::new(FiniteDomain::from(
                             wmin.saturating_sub(umax)..=wmax.saturating_sub(umin),
                         )),
-                    )?
-                    .with_constraint(self))
+                    )
             }
             // If all operators do not yet have domains, then keep the constraint until it can
             // be used to constrain some domains.
